@@ -22,7 +22,7 @@ def gen_models(entry_fn, n_quick, n_thorough, sched_frac=0.0, kinds=None):
         n = n_quick if tier == "quick" else n_thorough
         cases = []
         for _ in range(n):
-            nv, doms, props = plevel.rand_model(rng, kinds or plevel.BASIC_KINDS)
+            nv, doms, props = plevel.rand_model(rng, kinds or (plevel.ALL_KINDS if rng.random() < 0.6 else plevel.BASIC_KINDS))
             e = entry_fn(rng, nv)
             c = " ; ".join(["|".join(doms)] + props + [e])
             if rng.random() < sched_frac:
